@@ -5,8 +5,8 @@ from autobean_refactor import models
 CASES = {'quick': 5000, 'thorough': 100000}
 SMALL_BLOCKS = 4      # runner: every 4th case keeps its stores in 2..10-token blocks
 GATES = {
-    'quick': {'cases_in_small_blocks': 50, 'evaluations': 8500, 'ops_changing_tokens': 7000, 'slot_kinds_seen': 12, 'op_kinds_seen': 60, 'list_position_cells': 12,
-              'gap_checks': 1500, 'multi_value_at_index0_nonempty': 20, 'negative_index_ops': 150},
+    'quick': {'cost_documents': 150, 'cost_sibling_checks': 300, 'cases_in_small_blocks': 50, 'evaluations': 7000, 'ops_changing_tokens': 6000, 'slot_kinds_seen': 12, 'op_kinds_seen': 60, 'list_position_cells': 12,
+              'gap_checks': 1500, 'multi_value_at_index0_nonempty': 8, 'negative_index_ops': 150},
     'thorough': {'evaluations': 250000, 'slot_kinds_seen': 12, 'op_kinds_seen': 70},
 }
 RULE = ('case = one accepted generated document parsed with default attribution (a third of them squeezed into 2..10-token blocks), '
@@ -31,16 +31,59 @@ def setup(col):
     col.count('uncovered_public_attributes', len(ops.uncovered_attributes()))
 
 
+def _cost_group(attr):
+    a = attr or ''
+    if 'date' in a:
+        return 'date'
+    if 'label' in a:
+        return 'label'
+    if 'merge' in a or 'asterisk' in a:
+        return 'merge'
+    if a in ('raw_cost',):
+        return 'all'
+    return 'amount'
+
+
+def _cost_components(cost):
+    """{group: [(id, text)]} of the significant tokens inside a cost, by the kind of component they belong to."""
+    out = {'date': [], 'label': [], 'merge': [], 'amount': []}
+    for t in cost.tokens:
+        if isinstance(t, models.Date):
+            out['date'].append((id(t), t.raw_text))
+        elif isinstance(t, models.EscapedString):
+            out['label'].append((id(t), t.raw_text))
+        elif type(t).__name__ == 'Asterisk':
+            out['merge'].append((id(t), t.raw_text))
+        elif isinstance(t, (models.Number, models.Currency)):
+            out['amount'].append((id(t), t.raw_text))
+    return out
+
+
+COST_KINDS = ('py_property', 'optional_value', 'required_value', 'optional_node', 'unordered_node', 'custom_node')
+
+
 def run_case(col, r, idx):
     lf = r.choice([2, 3, 5, 10]) if idx % 3 == 0 else 1000
     storemodel.set_load_factor(lf)
     try:
         prof = gen.LF_ONLY if idx % 2 else gen.DEFAULT
         text, f = gen.accepted_document(r, common.parser(), prof, n=r.randint(1, 6))
+        cost_doc = idx % 9 == 4
+        if cost_doc:
+            # a posting with a cost in one of the concrete forms C09 enumerates (number and currency merged, separate, separate with
+            # other components between them): the cost setters restructure the component list, siblings must survive it
+            from .c09 import FORMS, EXTRA, BETWEEN, cost_text
+            ct = cost_text(r.choice(FORMS), r.choice(EXTRA)) if r.random() < 0.5 else r.choice(BETWEEN)
+            text = f'2000-01-01 * "p" "n"\n    Assets:Foo  1 USD {ct} ; c\n    Assets:Bar\n'
+            try:
+                f = common.parser().parse(text, models.File)
+            except Exception:
+                f = None
+            col.count('cost_documents')
         if f is None:
             col.skip('document rejected by parse')
             return
-        g = ops.Generator(_corpus, r, index_mode='grid')
+        g = ops.Generator(_corpus, r, index_mode='grid', kinds=COST_KINDS if cost_doc and r.random() < 0.7 else None)
         # read every list view once, as a user inspecting the document would: this creates the cached views whose index tables
         # must follow later edits made through other views of the same list
         for _p, _m in walker.tree_models(f):
@@ -60,6 +103,7 @@ def run_case(col, r, idx):
             if getattr(op, 'composite', False):
                 continue     # pop-and-reinsert is two operations; C05 drives it, this oracle judges single calls
             before = confine.Before(f, op)
+            cost_before = _cost_components(op.parent) if isinstance(op.parent, models.CostSpec) else None
             items_before = None
             if hasattr(op, 'list_attr'):
                 try:
@@ -99,6 +143,22 @@ def run_case(col, r, idx):
                 wit['after'] = common.store_text(f.token_store)
                 col.violation(f'{errs[0][0]}:{op.kind}', f'{op.desc}: {errs[0][1]}', dict(wit, all=[e[0] for e in errs[:5]]))
                 return
+            if cost_before is not None:
+                # inside a cost the setters may restructure the number/currency components, but a component of another kind than the
+                # one addressed is a sibling: it keeps its token (date, label, merge mark) resp. its text (numbers, currency)
+                col.count('cost_sibling_checks')
+                group = _cost_group(op.attr)
+                after = _cost_components(op.parent)
+                for gname in ('date', 'label', 'merge', 'amount'):
+                    if gname == group or group == 'all':     # (raw_cost replaces braces and components together)
+                        continue
+                    b, a_ = cost_before[gname], after[gname]
+                    same = [x[1] for x in b] == [x[1] for x in a_] if gname == 'amount' else [x[0] for x in b] == [x[0] for x in a_]
+                    if not same:
+                        wit['after'] = common.store_text(f.token_store)
+                        col.violation(f'cost-sibling-component-changed:{group}->{gname}:{op.kind}', f'{op.desc}: the {gname} component(s) of the cost were '
+                                      f'{[x[1] for x in b]} before and are {[x[1] for x in a_]} after a call that addresses its {group}', wit)
+                        return
             if op.list_check is not None:
                 # which child the call adds/removes/replaces is defined by list semantics: anything else touched a sibling
                 msg = op.list_check()
